@@ -583,4 +583,373 @@ example : ({ mkSpec [] [] 3 with sampleRate := 10, totalSampledUsed := 24 } : Sp
 
 end psd
 
+/-! ## composition laws: derive → derive → query -/
+
+section order
+variable {α : Type} [LinearOrder α] {β : Type}
+
+theorem inRangeLists_eq (lo hi : α) (f : List α) (p : List β) (h : f.length = p.length) :
+    inRangeLists lo hi f p =
+        (((f.zip p).filter (fun b => decide (lo < b.1 ∧ b.1 ≤ hi))).map Prod.fst,
+         ((f.zip p).filter (fun b => decide (lo < b.1 ∧ b.1 ≤ hi))).map Prod.snd) :=
+  (in_range_spec lo hi f p h).1
+
+theorem excludeLists_eq (ranges : List (α × α)) (f : List α) (p : List β) (h : f.length = p.length) :
+    excludeLists ranges f p =
+        (((f.zip p).filter (fun b => notExcluded ranges b.1)).map Prod.fst,
+         ((f.zip p).filter (fun b => notExcluded ranges b.1)).map Prod.snd) :=
+  (exclude_spec ranges f p h).1
+
+theorem notExcluded_append (r₁ r₂ : List (α × α)) (x : α) :
+    notExcluded (r₁ ++ r₂) x = (notExcluded r₁ x && notExcluded r₂ x) := by
+  unfold notExcluded; rw [List.all_append]
+
+/-- two restrictions in a row are the restriction to the intersection -/
+theorem inRangeLists_twice (a b c d : α) (f : List α) (p : List β) (h : f.length = p.length) :
+    inRangeLists c d (inRangeLists a b f p).1 (inRangeLists a b f p).2 = inRangeLists (max a c) (min b d) f p := by
+  rw [inRangeLists_eq a b f p h]
+  simp only
+  rw [inRangeLists_eq c d _ _ (by simp), zip_map_fst_snd, inRangeLists_eq _ _ f p h, List.filter_filter]
+  have : (fun b_1 : α × β => decide (c < b_1.1 ∧ b_1.1 ≤ d) && decide (a < b_1.1 ∧ b_1.1 ≤ b))
+      = fun b_1 : α × β => decide (max a c < b_1.1 ∧ b_1.1 ≤ min b d) := by
+    funext x
+    rw [← Bool.decide_and]
+    apply decide_eq_decide.mpr
+    rw [max_lt_iff, le_min_iff]
+    tauto
+  rw [this]
+
+theorem excludeLists_twice (r₁ r₂ : List (α × α)) (f : List α) (p : List β) (h : f.length = p.length) :
+    excludeLists r₂ (excludeLists r₁ f p).1 (excludeLists r₁ f p).2 = excludeLists (r₁ ++ r₂) f p := by
+  rw [excludeLists_eq r₁ f p h]
+  simp only
+  rw [excludeLists_eq r₂ _ _ (by simp), zip_map_fst_snd, excludeLists_eq _ f p h, List.filter_filter]
+  have : (fun b : α × β => notExcluded r₂ b.1 && notExcluded r₁ b.1) = fun b : α × β => notExcluded (r₁ ++ r₂) b.1 := by
+    funext x
+    rw [notExcluded_append, Bool.and_comm]
+  rw [this]
+
+theorem inRange_exclude_comm (a b : α) (rs : List (α × α)) (f : List α) (p : List β) (h : f.length = p.length) :
+    excludeLists rs (inRangeLists a b f p).1 (inRangeLists a b f p).2
+      = inRangeLists a b (excludeLists rs f p).1 (excludeLists rs f p).2 := by
+  rw [inRangeLists_eq a b f p h, excludeLists_eq rs f p h]
+  simp only
+  rw [excludeLists_eq rs _ _ (by simp), inRangeLists_eq a b _ _ (by simp), zip_map_fst_snd, zip_map_fst_snd,
+    List.filter_filter, List.filter_filter]
+  have : (fun x : α × β => notExcluded rs x.1 && decide (a < x.1 ∧ x.1 ≤ b))
+      = fun x : α × β => decide (a < x.1 ∧ x.1 ≤ b) && notExcluded rs x.1 := by
+    funext x; rw [Bool.and_comm]
+  rw [this]
+
+end order
+
+theorem pyMax_assoc (x a c : Rat) : pyMax (pyMax x a) c = pyMax x (max a c) := by
+  unfold pyMax
+  rcases le_total a c with h | h
+  · rw [max_eq_right h]
+    by_cases h1 : a > x
+    · rw [if_pos h1]
+      by_cases h2 : c > a
+      · rw [if_pos h2, if_pos (lt_trans h1 h2)]
+      · have : c = a := le_antisymm (not_lt.mp h2) h
+        subst this
+        rw [if_neg h2, if_pos h1]
+    · rw [if_neg h1]
+  · rw [max_eq_left h]
+    by_cases h1 : a > x
+    · rw [if_pos h1, if_neg (not_lt.mpr h)]
+    · rw [if_neg h1]
+      have : ¬ c > x := fun hc => h1 (lt_of_lt_of_le hc h)
+      rw [if_neg this]
+
+theorem pyMin_assoc (x b d : Rat) : pyMin (pyMin x b) d = pyMin x (min b d) := by
+  unfold pyMin
+  rcases le_total b d with h | h
+  · rw [min_eq_left h]
+    by_cases h1 : b < x
+    · rw [if_pos h1, if_neg (not_lt.mpr h)]
+    · rw [if_neg h1]
+      have : ¬ d < x := fun hc => h1 (lt_of_le_of_lt h hc)
+      rw [if_neg this]
+  · rw [min_eq_right h]
+    by_cases h1 : b < x
+    · rw [if_pos h1]
+      by_cases h2 : d < b
+      · rw [if_pos h2, if_pos (lt_trans h2 h1)]
+      · have : d = b := le_antisymm h (not_lt.mp h2)
+        subst this
+        rw [if_neg h2, if_pos h1]
+    · rw [if_neg h1]
+
+/-- **in_range_in_range.**  Two restrictions in a row are the restriction to the intersection `(max a c, min b d]` —
+    arrays and `_fit_range` bookkeeping alike: the whole object is the same. -/
+theorem in_range_in_range (s : Spec) (a b c d : Rat) (hlen : s.freq.length = s.power.length) :
+    (s.inRange a b).inRange c d = s.inRange (max a c) (min b d) := by
+  unfold Spec.inRange
+  simp only [inRangeLists_twice a b c d s.freq s.power hlen, pyMax_assoc, pyMin_assoc]
+
+/-- **exclude_exclude.**  Excluding `r₁` and then `r₂` is excluding `r₁ ++ r₂` at once (arrays and the record
+    `_excluded_ranges`); with `r₂ = r₁`: excluding twice in a row removes nothing more. -/
+theorem exclude_exclude (s : Spec) (r₁ r₂ : List (Rat × Rat)) (hlen : s.freq.length = s.power.length) :
+    (s.excludeRange r₁).excludeRange r₂ = s.excludeRange (r₁ ++ r₂) := by
+  unfold Spec.excludeRange
+  simp only [excludeLists_twice r₁ r₂ s.freq s.power hlen, List.append_assoc]
+
+/-- **in_range_exclude_comm.**  Restriction and exclusion commute (the whole object is the same). -/
+theorem in_range_exclude_comm (s : Spec) (a b : Rat) (rs : List (Rat × Rat)) (hlen : s.freq.length = s.power.length) :
+    (s.inRange a b).excludeRange rs = (s.excludeRange rs).inRange a b := by
+  unfold Spec.inRange Spec.excludeRange
+  simp only [inRange_exclude_comm a b rs s.freq s.power hlen]
+
+
+/-- **block_block.**  Block averaging by `k₁` and then by `k₂` is block averaging by `k₁·k₂`: same frequencies, same
+    powers (a mean of `k₂` means of `k₁` bins is the mean of the `k₁·k₂` bins; `⌊⌊n/k₁⌋/k₂⌋ = ⌊n/(k₁k₂)⌋` blocks),
+    and the recorded `num_points_per_block` is the product — the whole object is the same. -/
+theorem block_block (s : Spec) (k₁ k₂ : Nat) (h₁ : 0 < k₁) (h₂ : 0 < k₂) :
+    (s.downsampledBy k₁).downsampledBy k₂ = s.downsampledBy (k₁ * k₂) := by
+  unfold Spec.downsampledBy
+  simp only [downsampleMean_twice k₁ k₂ h₁ h₂, Nat.mul_assoc]
+
+example : ((mkSpec [0, 1, 2, 3, 4, 5, 6] [1, 2, 3, 4, 5, 6, 7] 1).downsampledBy 2).downsampledBy 3
+    = (mkSpec [0, 1, 2, 3, 4, 5, 6] [1, 2, 3, 4, 5, 6, 7] 1).downsampledBy 6 := by decide +kernel
+
+/-! ### what every derived spectrum keeps: paired arrays, `_fit_range` bounds the frequencies -/
+
+/-- frequency and power have the same number of bins -/
+def Spec.Paired (s : Spec) : Prop := s.freq.length = s.power.length
+
+/-- `_fit_range` bounds every frequency of the spectrum -/
+def Spec.FitOK (s : Spec) : Prop := ∀ x ∈ s.freq, s.fitLo ≤ x ∧ x ≤ s.fitHi
+
+/-- **paired_preserved.**  Every derivation step returns paired arrays when given paired arrays (so the hypothesis
+    `freq.length = power.length` of the theorems above is established by the constructor and kept by the code). -/
+theorem paired_preserved (s : Spec) (h : s.Paired) (st : Step) : (s.step st).Paired := by
+  unfold Spec.Paired at *
+  cases st with
+  | inRange lo hi =>
+    show (inRangeLists lo hi s.freq s.power).1.length = (inRangeLists lo hi s.freq s.power).2.length
+    rw [inRangeLists_eq lo hi s.freq s.power h]; simp
+  | exclude rs =>
+    show (excludeLists rs s.freq s.power).1.length = (excludeLists rs s.freq s.power).2.length
+    rw [excludeLists_eq rs s.freq s.power h]; simp
+  | block k =>
+    show (downsampleMean k s.freq).length = (downsampleMean k s.power).length
+    by_cases hk : 0 < k
+    · rw [downsampleMean_length k hk, downsampleMean_length k hk, h]
+    · have : k = 0 := by omega
+      subst this
+      simp [downsampleMean, reshapeRows, roundDown]
+
+theorem run_paired (steps : List Step) : ∀ (s : Spec), s.Paired → (s.run steps).Paired := by
+  induction steps with
+  | nil => intro s h; exact h
+  | cons st rest ih => intro s h; exact ih _ (paired_preserved s h st)
+
+theorem pyMax_ge (x a : Rat) : x ≤ pyMax x a ∧ a ≤ pyMax x a := by
+  unfold pyMax; split <;> [exact ⟨le_of_lt ‹_›, le_refl _⟩; exact ⟨le_refl _, not_lt.mp ‹_›⟩]
+
+theorem pyMax_cases (x a : Rat) : pyMax x a = x ∨ pyMax x a = a := by
+  unfold pyMax; split <;> simp
+
+theorem pyMin_cases (x a : Rat) : pyMin x a = x ∨ pyMin x a = a := by
+  unfold pyMin; split <;> simp
+
+/-- **fit_range_invariant.**  `_fit_range` keeps bounding the frequencies: `in_range` tightens it to the requested
+    range (`max`/`min`), exclusion removes bins, block means lie between the smallest and the largest member of
+    their block. -/
+theorem fit_range_invariant (s : Spec) (hp : s.Paired) (h : s.FitOK) (st : Step) (hk : st ≠ .block 0) :
+    (s.step st).FitOK := by
+  unfold Spec.FitOK at *
+  cases st with
+  | inRange lo hi =>
+    intro x hx
+    have hx : x ∈ (inRangeLists lo hi s.freq s.power).1 := hx
+    rw [(in_range_spec lo hi s.freq s.power hp).2.1, List.mem_filter] at hx
+    obtain ⟨hm, hc⟩ := hx
+    have hc : lo < x ∧ x ≤ hi := by simpa using hc
+    show pyMax s.fitLo lo ≤ x ∧ x ≤ pyMin s.fitHi hi
+    constructor
+    · rcases pyMax_cases s.fitLo lo with e | e <;> rw [e]
+      · exact (h x hm).1
+      · exact le_of_lt hc.1
+    · rcases pyMin_cases s.fitHi hi with e | e <;> rw [e]
+      · exact (h x hm).2
+      · exact hc.2
+  | exclude rs =>
+    intro x hx
+    have hx : x ∈ (excludeLists rs s.freq s.power).1 := hx
+    rw [(exclude_spec rs s.freq s.power hp).2.1, List.mem_filter] at hx
+    exact h x hx.1
+  | block k =>
+    have hk : 0 < k := by
+      rcases Nat.eq_zero_or_pos k with rfl | h0
+      · exact absurd rfl hk
+      · exact h0
+    intro x hx
+    have hx : x ∈ downsampleMean k s.freq := hx
+    obtain ⟨b1, -, b3⟩ := downsampleMean_bounds k hk s.freq s.fitLo s.fitHi
+    exact ⟨b1 (fun y hy => (h y hy).1) x hx, b3 (fun y hy => (h y hy).2) x hx⟩
+
+/-- the constructor establishes the invariants: `_fit_range = (frequency.min(), frequency.max())` -/
+theorem initial_invariants (f p : List Rat) (fs : Rat) (n npw : Nat) (hlen : f.length = p.length) :
+    (Spec.initial f p fs n npw).Paired ∧ (Spec.initial f p fs n npw).FitOK := by
+  refine ⟨hlen, ?_⟩
+  intro x hx
+  have hx : x ∈ f := hx
+  have hne : f ≠ [] := List.ne_nil_of_mem hx
+  obtain ⟨lo, hi, hfi⟩ := fitInit_isSome f hne
+  show ((fitInit f).getD (0, 0)).1 ≤ x ∧ x ≤ ((fitInit f).getD (0, 0)).2
+  rw [hfi]
+  exact (fitInit_spec f lo hi hfi).2.2 x hx
+
+/-- **chain_invariants.**  At the end of every chain of `in_range` / `_exclude_range` / `downsampled_by(k ≥ 1)` calls
+    on a freshly constructed spectrum the arrays are paired, `_fit_range` bounds the frequencies, and
+    `num_points_per_block` is the constructor's value times the product of the block sizes. -/
+theorem chain_invariants (steps : List Step) (hk : ∀ st ∈ steps, st ≠ .block 0) : ∀ (s : Spec), s.Paired → s.FitOK →
+    (s.run steps).Paired ∧ (s.run steps).FitOK ∧
+      (s.run steps).nppb = s.nppb * (steps.map fun st => match st with | .block k => k | _ => 1).prod := by
+  induction steps with
+  | nil => intro s h1 h2; exact ⟨h1, h2, by simp [Spec.run]⟩
+  | cons st rest ih =>
+    intro s h1 h2
+    have := ih (fun t ht => hk t (List.mem_cons_of_mem _ ht)) (s.step st) (paired_preserved s h1 st)
+      (fit_range_invariant s h1 h2 st (hk st List.mem_cons_self))
+    refine ⟨this.1, this.2.1, ?_⟩
+    show ((s.step st).run rest).nppb = _
+    rw [this.2.2, List.map_cons, List.prod_cons, ← Nat.mul_assoc]
+    congr 1
+    cases st <;> simp [Spec.step, Spec.inRange, Spec.excludeRange, Spec.downsampledBy]
+
+example : (Spec.initial [0, 1, 2, 3] [5, 6, 7, 8] 8 6 6).FitOK ∧ (Spec.initial [0, 1, 2, 3] [5, 6, 7, 8] 8 6 6).Paired := by
+  refine ⟨?_, rfl⟩
+  intro x hx
+  have : (Spec.initial [0, 1, 2, 3] [5, 6, 7, 8] 8 6 6).fitLo = 0 ∧ (Spec.initial [0, 1, 2, 3] [5, 6, 7, 8] 8 6 6).fitHi = 3 := by
+    decide +kernel
+  rw [this.1, this.2]
+  have hx : x ∈ ([0, 1, 2, 3] : List Rat) := hx
+  simp only [List.mem_cons, List.not_mem_nil, or_false] at hx
+  rcases hx with rfl | rfl | rfl | rfl <;> norm_num
+
+/-- what a chain of range steps keeps of a bin at frequency `x` -/
+def keepBy (steps : List Step) (x : Rat) : Bool :=
+  steps.all fun st => match st with
+    | .inRange lo hi => decide (lo < x ∧ x ≤ hi)
+    | .exclude rs => notExcluded rs x
+    | .block _ => true
+
+/-- **chain_filter.**  A chain of any number of `in_range` and `_exclude_range` calls (no block averaging in between)
+    keeps exactly the bins that every single step keeps, in order, frequency and power paired — a filter of the bins of
+    the spectrum the chain started from; nothing else about the intermediate objects matters. -/
+theorem chain_filter (steps : List Step) (hnb : ∀ st ∈ steps, ∀ k, st ≠ .block k) : ∀ (s : Spec), s.Paired →
+    (s.run steps).freq.zip (s.run steps).power = (s.freq.zip s.power).filter (fun b => keepBy steps b.1) ∧
+    (s.run steps).freq = s.freq.filter (keepBy steps) := by
+  induction steps with
+  | nil =>
+    intro s _
+    have : keepBy [] = fun _ => true := by funext x; simp [keepBy]
+    simp [Spec.run, this]
+  | cons st rest ih =>
+    intro s hp
+    obtain ⟨i1, i2⟩ := ih (fun t ht => hnb t (List.mem_cons_of_mem _ ht)) (s.step st) (paired_preserved s hp st)
+    have hrun : s.run (st :: rest) = (s.step st).run rest := rfl
+    rw [hrun, i1, i2]
+    have hk : ∀ x, keepBy (st :: rest) x = (keepBy [st] x && keepBy rest x) := by
+      intro x; simp [keepBy]
+    cases st with
+    | block k => exact absurd rfl (hnb _ List.mem_cons_self k)
+    | inRange lo hi =>
+      have e := in_range_spec lo hi s.freq s.power hp
+      show ((inRangeLists lo hi s.freq s.power).1.zip (inRangeLists lo hi s.freq s.power).2).filter _ = _ ∧
+        (inRangeLists lo hi s.freq s.power).1.filter _ = _
+      rw [e.2.2, e.2.1, List.filter_filter, List.filter_filter]
+      constructor
+      · congr 1; funext b; rw [hk, Bool.and_comm]; simp [keepBy]
+      · congr 1; funext b; rw [hk, Bool.and_comm]; simp [keepBy]
+    | exclude rs =>
+      have e := exclude_spec rs s.freq s.power hp
+      show ((excludeLists rs s.freq s.power).1.zip (excludeLists rs s.freq s.power).2).filter _ = _ ∧
+        (excludeLists rs s.freq s.power).1.filter _ = _
+      rw [e.2.2, e.2.1, List.filter_filter, List.filter_filter]
+      constructor
+      · congr 1; funext b; rw [hk, Bool.and_comm]; simp [keepBy]
+      · congr 1; funext b; rw [hk, Bool.and_comm]; simp [keepBy]
+
+/-- **chain_order_irrelevant.**  Range steps commute: any reordering of a chain of `in_range` / `_exclude_range`
+    calls yields the same frequencies and the same powers. -/
+theorem chain_order_irrelevant (steps₁ steps₂ : List Step) (hperm : steps₁.Perm steps₂)
+    (hnb : ∀ st ∈ steps₁, ∀ k, st ≠ .block k) (s : Spec) (hp : s.Paired) :
+    (s.run steps₁).freq = (s.run steps₂).freq ∧
+      (s.run steps₁).freq.zip (s.run steps₁).power = (s.run steps₂).freq.zip (s.run steps₂).power := by
+  have hnb₂ : ∀ st ∈ steps₂, ∀ k, st ≠ .block k := fun st h => hnb st (hperm.mem_iff.mpr h)
+  obtain ⟨a1, a2⟩ := chain_filter steps₁ hnb s hp
+  obtain ⟨b1, b2⟩ := chain_filter steps₂ hnb₂ s hp
+  have hk : keepBy steps₁ = keepBy steps₂ := by
+    funext x
+    unfold keepBy
+    exact hperm.all_eq
+  rw [a1, a2, b1, b2, hk]
+  exact ⟨rfl, rfl⟩
+
+example : (mkSpec [0, 1, 2, 3, 4, 5] [10, 11, 12, 13, 14, 15] 1).Paired := rfl
+example : ((mkSpec [0, 1, 2, 3, 4, 5] [10, 11, 12, 13, 14, 15] 1).run [.exclude [(2, 3)], .inRange 0 4, .exclude [(4, 9)]]).freq
+    = [1, 3] := by decide +kernel
+
+/-- **pipeline_in_fit_range.**  Every frequency `calculate_power_spectrum` returns lies in the requested fit range
+    `f_min < f ≤ f_max` — also after block averaging (block means of bins inside the range).  The same is NOT true of
+    the excluded ranges: a block that straddles the gap an exclusion left has its mean inside the excluded range (see
+    the witness after `exclude_memoryless`). -/
+theorem pipeline_in_fit_range (s : Spec) (lo hi : Rat) (ranges : List (Rat × Rat)) (k : Nat) (hk : 0 < k)
+    (hp : s.Paired) : ∀ x ∈ (s.pipeline lo hi ranges k).freq, lo < x ∧ x ≤ hi := by
+  have h1 : ∀ x ∈ (s.inRange lo hi).freq, lo < x ∧ x ≤ hi := by
+    intro x hx
+    have hx : x ∈ (inRangeLists lo hi s.freq s.power).1 := hx
+    rw [(in_range_spec lo hi s.freq s.power hp).2.1, List.mem_filter] at hx
+    simpa using hx.2
+  have hp1 : (s.inRange lo hi).Paired := paired_preserved s hp (.inRange lo hi)
+  have h2 : ∀ x ∈ ((s.inRange lo hi).excludeRange ranges).freq, lo < x ∧ x ≤ hi := by
+    intro x hx
+    have hx : x ∈ (excludeLists ranges (s.inRange lo hi).freq (s.inRange lo hi).power).1 := hx
+    rw [(exclude_spec ranges _ _ hp1).2.1, List.mem_filter] at hx
+    exact h1 x hx.1
+  intro x hx
+  have hx : x ∈ downsampleMean k ((s.inRange lo hi).excludeRange ranges).freq := hx
+  obtain ⟨-, b2, b3⟩ := downsampleMean_bounds k hk ((s.inRange lo hi).excludeRange ranges).freq lo hi
+  exact ⟨b2 (fun y hy => (h2 y hy).1) x hx, b3 (fun y hy => (h2 y hy).2) x hx⟩
+
+/-! ### the constructor's window bookkeeping -/
+
+/-- the window length the constructor uses never exceeds the data length (longer windows are clamped, with a warning) -/
+theorem window_points_le (ws : Option Float) (fs : Float) (n : Nat) : numPointsPerWindow ws fs n ≤ n := by
+  unfold numPointsPerWindow
+  cases ws with
+  | none => exact Nat.le_refl _
+  | some w => simp only; split <;> omega
+
+/-- **window_bookkeeping.**  For a window of `1 ≤ N_w ≤ N` points: `num_points_per_block = ⌊N/N_w⌋ ≥ 1` windows,
+    `total_sampled_used = N_w·⌊N/N_w⌋ ≤ N` samples, fewer than `N_w` samples are left unused. -/
+theorem window_bookkeeping (n npw : Nat) (h0 : 0 < npw) (hle : npw ≤ n) :
+    1 ≤ (psdMeta n npw).2 ∧ (psdMeta n npw).1 = npw * (psdMeta n npw).2 ∧ (psdMeta n npw).1 ≤ n ∧
+      n - (psdMeta n npw).1 < npw := by
+  unfold psdMeta
+  simp only
+  have h1 : 0 < n / npw := Nat.div_pos hle h0
+  have h2 : npw * (n / npw) ≤ n := Nat.mul_div_le n npw
+  have h3 := Nat.div_add_mod n npw
+  have h4 := Nat.mod_lt n h0
+  refine ⟨h1, trivial, h2, ?_⟩
+  omega
+
+/-- **bin_width_constructed.**  The hypotheses of `bin_width` are established by the constructor: a freshly
+    constructed spectrum with windows of `1 ≤ N_w ≤ N` points has `frequency_bin_width = fs/N_w` (whatever the
+    remainder `N mod N_w`), and `fs/N_w·k₁·…` after block averaging. -/
+theorem bin_width_constructed (f p : List Rat) (fs : Rat) (n npw : Nat) (h0 : 0 < npw) (hle : npw ≤ n) (k : Nat) :
+    (Spec.initial f p fs n npw).binWidth = fs / (npw : Rat) ∧
+      ((Spec.initial f p fs n npw).downsampledBy k).binWidth = fs / (npw : Rat) * (k : Rat) := by
+  have hb := window_bookkeeping n npw h0 hle
+  have := bin_width (Spec.initial f p fs n npw) npw (psdMeta n npw).2 (by omega)
+    (by show (psdMeta n npw).1 = _; exact hb.2.1) rfl k
+  exact ⟨this.1, by rw [this.2, this.1]; rfl⟩
+
+example : (Spec.initial [] [] 10 26 8).binWidth = 5 / 4 := by decide +kernel
+
 end Verif.C10
